@@ -141,6 +141,9 @@ func fileTreeRecursive(
 
 	// depth > 1
 
+	// a call seeded with the previous root is the top of the tree; only there may a level that
+	// adds nothing be collapsed back to its single child (see below)
+	seeded := len(children) > 0
 	if children == nil {
 		children = make(fileShards, 0)
 	}
@@ -161,8 +164,10 @@ func fileTreeRecursive(
 	if len(children) == 0 {
 		// empty case
 		return fileShardMeta{}, nil
-	} else if len(children) == 1 {
-		// degenerate case
+	} else if len(children) == 1 && seeded {
+		// degenerate case: no data was left to add on top of the previous root, which is how
+		// BuildUnixFSFile recognises that the tree is complete. A nested subtree with a single
+		// child is NOT collapsed: the reference balanced layout wraps it in a node of its own.
 		return children[0], nil
 	}
 
